@@ -24,6 +24,8 @@ import (
 	"context"
 	"errors"
 	"sync"
+
+	"github.com/openconfig/gnmi/verifhook"
 )
 
 // Queue is a structure that implements in-order delivery of coalesced inputs.
@@ -68,6 +70,7 @@ func (q *Queue) Insert(i interface{}) (bool, error) {
 		return false, errClosedQueue
 	default:
 	}
+	verifhook.Point("coalesce.insert.checked", q)
 
 	ok := q.insert(i)
 
@@ -103,6 +106,7 @@ func (q *Queue) Next(ctx context.Context) (interface{}, uint32, error) {
 		if valid {
 			return i, coalesced, nil
 		}
+		verifhook.Point("coalesce.next.empty", q)
 		// Wait for an insert or a close.
 		select {
 		case <-ctx.Done():
